@@ -401,8 +401,16 @@ func parent(p *props.Prop) int {
 		keys = append(keys, k)
 	}
 	sort.Strings(keys)
+	details := 0
 	for _, k := range keys {
+		if strings.HasPrefix(k, "detail:") {
+			details++
+			continue
+		}
 		fmt.Printf("  observed %-44s %d\n", k, counters[k])
+	}
+	if details > 0 {
+		fmt.Printf("  (+ %d per-type/per-kind counters in the evidence file)\n", details)
 	}
 	knownKeys := make([]string, 0, len(kn))
 	for k := range kn {
